@@ -8,6 +8,7 @@ P3  every failing operation raises, with the right reason, on every path through
 P4  the reported location is the failing node's own meta
 P5  all six fields of the record are accumulated, merged, kept alive, renumbered and emitted in order
 P6  every decoder parses the panic record before touching payload bits
+P7  cross-reference: every operand is evaluated once (C14-E11 parser sugar, C14-E12 lowering), else a failure is reported that the source never reaches
 """
 from .. import hir, mir, protocol
 from ..core import AnchorMissing, Finding, RuleResult
@@ -653,6 +654,18 @@ def _is_compile_call(ctx, t):
     return (seg == "compile" or seg.startswith("compile_")) and c.startswith("compile::<impl ast::")
 
 
+def _returned_as_is(ctx, body, l):
+    """The local holds nothing but results of the expression lowering and is what the function returns (`let r = rewritten.compile(..); ..; return r`)."""
+    ds = body.defs().get(l, [])
+    if not ds or not all(d[0] == "call" and _is_compile_call(ctx, d[3]) for d in ds):
+        return False
+    for d in body.defs().get(0, []):
+        if d[0] == "assign" and d[3]["rv"]["k"] == "use" and d[3]["rv"]["op"]["k"] in ("copy", "move") and \
+                d[3]["rv"]["op"]["place"]["l"] == l and not d[3]["rv"]["op"]["place"]["p"]:
+            return True
+    return False
+
+
 def rule_p3(ctx):
     res = RuleResult("P3", "every failing operation raises with the right reason on every path; silent arms raise nothing")
     f = fn_of(ctx, EXPR_COMPILE)
@@ -677,7 +690,7 @@ def rule_p3(ctx):
                     pass  # signed MIN / -1 (C03-A1)
                 else:
                     wrong.append((b, t, rs))
-            elif _is_compile_call(ctx, t) and t["dest"]["l"] == 0 and not t["dest"]["p"]:
+            elif _is_compile_call(ctx, t) and not t["dest"]["p"] and (t["dest"]["l"] == 0 or _returned_as_is(ctx, body, t["dest"]["l"])):
                 # tail delegation: `return rewritten.compile(..)` - the rewritten node raises in its own arm
                 # (for a constant factor 1 the rewritten node is the other operand itself: x * 1 cannot overflow)
                 deleg.add(b)
@@ -1094,5 +1107,18 @@ def rule_p6(ctx):
     return res
 
 
+def rule_p7(ctx):
+    """Cross-reference: an operand that is evaluated twice can report a failure the source-level execution never reaches
+    (`(if p { m = m + 1i8; m } else { m }) <= 0i8` with m = 126): C14-E11 (parser sugar) and C14-E12 (lowering)."""
+    from . import C14
+    res = RuleResult("P7", "every operand is evaluated once, so no failing operation is reached more often than in the source (cross-reference to C14-E11 / E12)")
+    for sub in (C14.rule_e11(ctx), C14.rule_e12(ctx)):
+        for x in sub.findings:
+            res.bad(Finding("P7", x.fn, x.site, x.message, x.span))
+        if not sub.findings:
+            res.ok({"verdict": "C14-%s holds" % sub.rule})
+    return res
+
+
 def run(ctx):
-    return ctx.run_rules([rule_p1, rule_p2, rule_p3, rule_p4, rule_p5, rule_p6])
+    return ctx.run_rules([rule_p1, rule_p2, rule_p3, rule_p4, rule_p5, rule_p6, rule_p7])
